@@ -1,5 +1,68 @@
 import QipVerif.Util.Proto
-/-! Driver stub (to be filled in by the owner of this model). -/
-open QipVerif.Proto
-def step (_line : String) : String := "bad-op"
+import QipVerif.Model.Sched
+/-! Driver for the scheduler model (C05, C11).
+
+Instruction syntax: `NAME:t,t:c,c:dur`, several joined by `|` (targets / controls already
+sorted as `Instruction.__init__` leaves them; empty controls = `None`; `dur` an integer
+numerator).
+
+* `comm g=A|B`                                              →  `ok 0|1`    (`commutation_rules`)
+* `share g=A|B`                                             →  `ok 0|1`    (`not qubit_constraint`)
+* `sched method=ASAP|ALAP perm=0|1 gates=… [shuf=π;π;…]`    →
+  `ok used=<#shuffles> cycles=a,b;c;… idx=… starts=… edges=i>j,…`
+  (`cycles` as returned with `return_cycles_list=True`, `idx` = `gate_cycles_indices`,
+  `starts` = `instruction_start_time` numerators, `edges` = sorted dependency edges)
+* errors: `err noqubits` (`max()` of an empty set: no instruction uses a qubit), `err empty` never
+  (the code returns `[]` for an empty list: answer `ok used=0 cycles= idx= starts= edges=`).
+-/
+open QipVerif QipVerif.Proto QipVerif.Sched
+
+def parseIns (s : String) : Option Ins :=
+  match s.splitOn ":" with
+  | [nm, ts, cs, d] =>
+    match natList? ts, natList? cs, d.toInt? with
+    | some t, some c, some dd => some ⟨nm, t, c, dd⟩
+    | _, _, _ => none
+  | _ => none
+
+def parseGates (s : String) : Option (List Ins) := (splitNE s "|").mapM parseIns
+
+def showCycles (c : List (List Nat)) : String := ";".intercalate (c.map showNats)
+
+def b2s (b : Bool) : String := if b then "ok 1" else "ok 0"
+
+def dedupSorted (n : Nat) (e : Edges) : List (Nat × Nat) :=
+  (List.range n).flatMap fun i => ((List.range n).filter fun j => e.has i j).map fun j => (i, j)
+
+def step (line : String) : String :=
+  let fs := fields line
+  match fs.head? with
+  | some "comm" =>
+    match (field? fs "g").bind parseGates with
+    | some [a, b] => b2s (commRules a b)
+    | _ => "bad-op"
+  | some "share" =>
+    match (field? fs "g").bind parseGates with
+    | some [a, b] => b2s (share a b)
+    | _ => "bad-op"
+  | some "sched" =>
+    match fStr? fs "method", fNat? fs "perm", (field? fs "gates").map parseGates with
+    | some m, some p, gs =>
+      let gs : Option (List Ins) := match gs with | none => some [] | some g => g
+      let shuf : Option (List (List Nat)) := match field? fs "shuf" with
+        | none => some []
+        | some s => natListList? s
+      match gs, shuf with
+      | some ns, some sh =>
+        if m != "ASAP" && m != "ALAP" then "bad-op" else
+        if ns.isEmpty then "ok used=0 cycles= idx= starts= edges=" else
+        if ns.all (fun i => i.used.isEmpty) then "err noqubits" else
+        let cfg : Cfg := ⟨m == "ALAP", p != 0, sh⟩
+        let cyc := gateCycles cfg ns
+        let e := dedupSorted ns.length (depEdges cfg.allowPerm ns)
+        s!"ok used={shufflesUsed cfg ns} cycles={showCycles cyc} idx={showNats (cycleIndices ns.length cyc)} starts={showInts (pulseStarts cfg ns)} edges={",".intercalate (e.map fun p => s!"{p.1}>{p.2}")}"
+      | _, _ => "bad-op"
+    | _, _, _ => "bad-op"
+  | _ => "bad-op"
+
 def main : IO Unit := serve step
